@@ -83,6 +83,11 @@ def outcome(mode, occ):
     return round(0.23 * occ + 0.17 * (mode % 5) + 0.011 * (mode // 5) - 0.35, 6)
 
 
+def fock_outcome(mode, occ):
+    """Scripted photon number of (subsystem, occurrence): different for neighbouring subsystems."""
+    return int((2 * (mode % 5) + mode // 5 + occ) % 4)
+
+
 def gen_case(rng):
     n = int(rng.integers(1, 4))
     L = int(rng.integers(3, 10))
@@ -90,8 +95,17 @@ def gen_case(rng):
     measured = {}
     het = {}
     free = {}
+    use_fock = n >= 2 and rng.random() < 0.25
     for pos in range(L):
         r = rng.random()
+        if use_fock and r < 0.09:
+            # photon counting on two subsystems listed in either order (gaussian backend; outcomes scripted at the sampler)
+            a, b = (int(x) for x in rng.choice(n, 2, replace=False))
+            cmds.append({"op": "MeasureFock", "m": [a, b]})
+            for m in (a, b):
+                measured[m] = measured.get(m, 0) + 1
+                het.pop(m, None)
+            continue
         if r < 0.18:
             m = int(rng.integers(n))
             if rng.random() < 0.3:
@@ -144,6 +158,8 @@ def gen_case(rng):
     backend = str(rng.choice(["gaussian", "gaussian", "gaussian", "bosonic", "fock"]))
     if backend == "fock" and any(c["op"] == "MeasureHeterodyne" for c in cmds):
         backend = "gaussian"  # the Fock backend has no heterodyne measurement
+    if any(c["op"] == "MeasureFock" for c in cmds):
+        backend = "gaussian"
     case = {"n": n, "cmds": cmds, "free": free, "binding": binding_mode,
             "pipeline": str(rng.choice(["run", "run", "optimize", "compile"])),
             "backend": backend}
@@ -164,9 +180,18 @@ def build(env, case, symbolic):
     emb = case.get("embed") or list(range(case["n"]))
     prog = sf.Program(case.get("N", case["n"]))
     occ = {}
+    last_fock = set()
     with prog.context as q_:
         q = [q_[i] for i in emb]
         for c in case["cmds"]:
+            if c["op"] == "MeasureFock":
+                ops.MeasureFock() | tuple(q[m] for m in c["m"])
+                for m in c["m"]:
+                    occ[m] = occ.get(m, 0) + 1
+                    last_fock.add(m)
+                continue
+            if c["op"] in ("MeasureHomodyne", "MeasureHeterodyne"):
+                last_fock.discard(c["m"][0])
             if c["op"] == "MeasureHomodyne":
                 ops.MeasureHomodyne(c["p"][0]) | q[c["m"][0]]
                 occ[c["m"][0]] = occ.get(c["m"][0], 0) + 1
@@ -196,7 +221,10 @@ def build(env, case, symbolic):
                         if s["kind"] == "meas" and s.get("het"):
                             args.append(complex(*s["het"]))
                         else:
-                            args.append(outcome(emb[s["mode"]], occ[s["mode"]]) if s["kind"] == "meas" else case["free"][s["name"]])
+                            if s["kind"] == "meas" and s["mode"] in last_fock:
+                                args.append(float(fock_outcome(emb[s["mode"]], occ[s["mode"]])))
+                            else:
+                                args.append(outcome(emb[s["mode"]], occ[s["mode"]]) if s["kind"] == "meas" else case["free"][s["name"]])
                     if e["f"] in CFUNCS:
                         f = CFUNCS[e["f"]][0]
                     else:
@@ -222,6 +250,12 @@ class Scripted:
         self.rt = RandomTap(self.script)
 
     def pre(self, op, reg, backend, kwargs):
+        if isinstance(op, self.env["ops"].MeasureFock):
+            for r in reg:
+                self.occ[r.ind] = self.occ.get(r.ind, 0) + 1
+            # one column per listed subsystem, in the order they are listed
+            self.cur_fock = [fock_outcome(r.ind, self.occ[r.ind]) for r in reg]
+            return
         if isinstance(op, self.env["ops"].Measurement):
             key = reg[0].ind
             self.occ[key] = self.occ.get(key, 0) + 1
@@ -237,6 +271,8 @@ class Scripted:
         self.stream.append((type(op).__name__, p, tuple(r.ind for r in reg), bool(getattr(op, "dagger", False))))
 
     def script(self, name, a, k, real):
+        if name == "walrus.hafnian_sample_state":
+            return np.array([list(self.cur_fock)])
         if name == "np.random.multivariate_normal":
             mean = np.asarray(a[0])
             size = k.get("size", a[2] if len(a) > 2 else None)
